@@ -700,7 +700,8 @@ func (tree *MutableTree) GetVersioned(key []byte, version int64) ([]byte, error)
 		}
 		t, err := tree.GetImmutable(version)
 		if err != nil {
-			return nil, nil
+			// the version exists: failing to load it is an error, not an absent key
+			return nil, err
 		}
 		value, err := t.Get(key)
 		if err != nil {
